@@ -89,7 +89,8 @@ PROPS["C18"] = dict(
     technique="rapid-generated and grid-enumerated schedule configurations and instants against an explicit calendar enumeration of the windows; relation laws (symmetry, transitivity) checked on generated triples",
     stages=[dict(name="rapid", kind="rapid", run="^TestC18_Rapid$", checks=(3000, 60000), shards=(8, 16), timeout=(400, 2400)),
             dict(name="grid", kind="plain", run="^TestC18_Grid$", shards=(8, 16), timeout=(600, 3000)),
-            dict(name="consumer", kind="rapid", run="^TestC18_Consumer$", checks=(1500, 30000), shards=(4, 16), timeout=(400, 2400))],
+            dict(name="consumer", kind="rapid", run="^TestC18_Consumer$", checks=(1500, 30000), shards=(4, 16), timeout=(400, 2400)),
+            dict(name="real-loop-session-end", kind="plain", run="^TestC18_RealLoopSessionEnd$", pkg="./props/session", shards=(0, 1), timeout=(0, 300), thorough_only=True)],
     require=["config:weekly", "config:overnight", "config:weekdays", "config:overnight+weekdays", "route:settings", "route:constructor", "consumer:outside-schedule", "consumer:inside-schedule", "consumer:reset-on-new-window",
              "pair:same=true", "pair:both-in-range-different-windows", "nontrivial:weekly", "nontrivial:overnight+weekdays"],
     assumptions=["windows are defined on the local wall clock of the configured zone; instants within 2 s of an edge clock value and windows with an edge inside a zone-transition hour are unspecified and excluded (counted)",
@@ -170,7 +171,8 @@ PROPS["C07"] = dict(
     pkg="./props/session", level="exploration", design_ref="DESIGN.md §3 C07",
     technique="rapid state machine over option combinations and connect/logon/logout/disconnect/reset histories; oracle = justification of every store reset from the statement's conditions, required resets with counter values, stability of counters and stored messages otherwise, forward-only SequenceReset rules",
     level_note=SESSION_NOTE,
-    stages=[dict(name="rapid", kind="rapid", run="^TestC07_Rapid$", checks=(1500, 30000), shards=(12, 16), timeout=(600, 3000))],
+    stages=[dict(name="rapid", kind="rapid", run="^TestC07_Rapid$", checks=(1500, 30000), shards=(12, 16), timeout=(600, 3000)),
+            dict(name="real-loop-reset-time", kind="plain", run="^TestC07_RealLoopResetTime$", shards=(0, 1), timeout=(0, 300), thorough_only=True)],
     require=["history-with:reconnect-at-non-initial-counters", "history-with:application-sets-ResetSeqNumFlag=N", "history-with:application-sets-ResetSeqNumFlag=Y", "history-with:reset-negotiated", "history-with:sequence-reset:lower", "history-with:sequence-reset:higher",
              "history-with:reset-time-crossed", "history-with:logout", "history-with:disconnect", "store:file", "store:memory"],
     assumptions=["a logout that times out without an answer, and an initiator receiving an unsolicited ResetSeqNumFlag in the Logon answer, are not covered by the statement and only checked for 'no unjustified reset'",
